@@ -137,7 +137,11 @@ def check_exec(ctx, name, scn, res, prefix, cost):
     # evals that nobody interrupted must complete; endless ones legitimately hit the horizon
     if end.startswith("horizon"):
         unfinished = [rid for rid, d in info.items() if d["done_at"] is None]
-        bad = [rid for rid in unfinished if rid not in scn["endless"]]
+        # a finite eval that is still executing steps when the horizon is reached is slow, not stuck: next to an eval that
+        # legitimately runs for ever (e.g. one whose interrupt arrived before it was dequeued) it gets only half of the points
+        tail = ops[-20:]
+        bad = [rid for rid in unfinished if rid not in scn["endless"]
+               and not any(t == info[rid]["worker"] and l == "eval.step" for (i, t, l, to) in tail)]
         if bad:
             viol("a finite eval does not finish within the step horizon", {"requests": bad})
         return
